@@ -125,7 +125,7 @@ static void reader(void *arg)
 	}
 }
 
-static int g_pol; static uint64_t g_seed; static int g_depth; static char g_replay[1 << 16];
+static int g_pol; static uint64_t g_seed; static int g_depth; static char g_replay[1 << 18];
 
 static void vh_reset(void) { g_ok = 0; g_pol = 0; g_seed = 1; }
 
@@ -169,7 +169,7 @@ static void vh_op(int argc, char **argv)
 		else vs_policy_replay(g_replay);
 		vs_set_spurious(0, 0);
 		vs_set_max_steps(20000);
-		vs_run();
+		if (vs_run() != VS_OK) vh_request_restart();
 		vs_print(stdout);
 		printf("outcome delivered=%s\n", g_delivered[0] ? g_delivered : "-");
 		muggle_socket_evloop_pipe_destroy(&g_pipe);
